@@ -59,6 +59,8 @@ type Program struct {
 	UsesDeep bool `json:",omitempty"`
 	// number of catch clauses generated under a known-finding restriction
 	Restricted int `json:",omitempty"`
+	// number of do expressions generated without catch clauses under the catch-keeps-pending-operands restriction
+	RestrictedPending int `json:",omitempty"`
 }
 
 // --- runtime values of the reference interpreter -----------------------------
